@@ -66,13 +66,16 @@ def gen_tree(rng, depth, max_leaves=8, single_top=False, chain_prob=0.25,
     return tree
 
 
-def gen_pipeline_case(rng, i, c03_bias=False):
+def gen_pipeline_case(rng, i, c03_bias=False, many_iters=False):
     depth = 1 + (i % 3) if i % 11 else 4
+    if many_iters:
+        depth = 1 + (i % 2)
     tree = gen_tree(rng, depth,
                     single_top=(depth > 1 and rng.random() < 0.2),
                     chain_prob=0.3, share_names=(i % 2 == 0))
     mp = pipeline.MappingProblem(rng, tree=tree, n_genes=rng.randint(8, 16),
-                                 integer_counts=(i % 3 != 1))
+                                 integer_counts=(i % 3 != 1
+                                                 and not many_iters))
     # marker lists: mostly >= 5 genes (with 2 genes every correlation is
     # +-1 and every vote a tie), now and then tiny
     shared = [g for g in mp.ref_genes if g in mp.query_genes]
@@ -82,7 +85,7 @@ def gen_pipeline_case(rng, i, c03_bias=False):
         else:
             k = rng.randint(1, 3)
         mp.markers[p] = rng.sample(shared, min(k, len(shared)))
-    normalization = 'raw' if i % 3 != 1 else 'log2CPM'
+    normalization = 'raw' if (i % 3 != 1 and not many_iters) else 'log2CPM'
     h = mp.tree['hierarchy']
     leaves = mp.leaves
     label = [normalization, 'depth%d' % len(h)]
@@ -96,7 +99,7 @@ def gen_pipeline_case(rng, i, c03_bias=False):
     if normalization == 'log2CPM':
         qcol = {g: k for k, g in enumerate(mp.query_genes)}
         for r in range(X.shape[0]):
-            if rng.random() < 0.3:
+            if rng.random() < (0.9 if many_iters else 0.3):
                 leaf = rng.choice(leaves)
                 for k, g in enumerate(mp.ref_genes):
                     if g in qcol:
@@ -148,6 +151,12 @@ def gen_pipeline_case(rng, i, c03_bias=False):
         elif u < (0.6 if c03_bias else 0.3):
             opts['drop_level'] = rng.choice(h[:-1])
             label.append('drop_level')
+    if many_iters:
+        # >= 256 iterations: the vote counter leaves uint8; few cells
+        opts['bootstrap_iteration'] = rng.choice([256, 257, 300, 700])
+        label.append('iters>=256')
+        X = X[:3]
+        mp.cell_ids = mp.cell_ids[:3]
     return {
         'kind': 'pipeline', 'label': sorted(set(label)), 'tree': mp.tree,
         'ref_genes': mp.ref_genes, 'leaf_n': mp.leaf_n,
